@@ -260,7 +260,10 @@ def forward_saves_input_state(n):
         env.assume(scalar(T.linalg.vector_norm(psi)) > 0.01, "the input state is not (numerically) zero")
         psi0 = psi.clone()
         saved = {}
-        ctx = SimpleNamespace(needs_input_grad=(False, True, True, True, True, True, False, False))
+        # which inputs require a gradient: backward uses the saved state for EVERY parameter gradient
+        # (omega, delta, phi and the interaction matrix), whichever of them is requested
+        flags = env.choice("needs_input_grad (omega, delta, phi, U, state)", FLAG_SETS_SMALL)
+        ctx = SimpleNamespace(needs_input_grad=(False,) + tuple(flags) + (False, False))
         ctx.save_for_backward = lambda *ts: saved.__setitem__("t", ts)
         old = te.krylov_exp
         if env.mode != "real":
@@ -279,7 +282,8 @@ def forward_saves_input_state(n):
         env.check(len(ts) == 5, "forward saves (omegas, deltas, phis, interaction matrix, state) for backward")
         if len(ts) == 5:
             want = psi0 if not env.mutant("expects_scaled_state") else 2.0 * psi0
-            env.check_eq(ts[4], want, f"the state saved for the backward pass is the state the step started from (n={n}, any norm)")
+            if any(flags[:4]):
+                env.check_eq(ts[4], want, f"the state saved for the backward pass is the state the step started from (n={n}, any norm)")
             env.check_eq(ts[0], omega, "saved amplitudes are the inputs")
             env.check_eq(ts[1], delta, "saved detunings are the inputs")
             env.check_eq(ts[2], phi, "saved phases are the inputs")
